@@ -132,6 +132,9 @@ def run_index(mod, seed, tier, idx, wd, want_sample=False):
         "fp": fingerprint(results),
         "slept": sum(r.slept for r in results if r is not None),
         "procs": sum(1 for r in results if r is not None),
+        # a process that ran into the CPU-time limit (a runaway in a broken tree): where exactly
+        # the kernel stops it is not something the simulator decides
+        "limited": any(r is not None and r.status == ("signal", 24) for r in results),
     }
     if want_sample or rec["violations"]:
         rec["model"] = model
@@ -329,6 +332,8 @@ def campaign(mod, tier, seed, workers=None, max_runs=None, time_cap=None, out=sy
         for i in range(0, done, step):
             r2 = run_index(mod, seed, tier, i, wd)
             rechecked += 1
+            if r2["fp"] != recs[i]["fp"] and (r2.get("limited") or recs[i].get("limited")):
+                continue   # stopped by the CPU-time limit: not comparable (and reported by the oracle as a violation)
             if r2["fp"] != recs[i]["fp"]:
                 raise build.HarnessError("nondeterminism: run %d (seed %d) gave two different executions" % (i, seed))
 
@@ -389,7 +394,14 @@ def campaign(mod, tier, seed, workers=None, max_runs=None, time_cap=None, out=sy
             if model is None:
                 model = mod.generate(Rng(derive(seed, mod.ID, i)), tier, i)
             # confirm it reproduces before anything else
-            sigs, _, _ = violation_sigs(mod, model, wd)
+            sigs, _, res0 = violation_sigs(mod, model, wd)
+            if sig not in sigs and (recs[i].get("limited") or any(r is not None and r.status == ("signal", 24) for r in res0)):
+                # a runaway process near the CPU-time limit: report the run as it is, unshrunk
+                path = write_replay(mod, model, sig, v["msg"], seed, i, wd)
+                log("VIOLATION property=%s replay=%s" % (mod.ID, path))
+                reported.append(sig)
+                exit_code = 1
+                continue
             if sig not in sigs:
                 raise build.HarnessError("violation %s of run %d did not reproduce" % (sig, i))
             small = shrink(mod, model, sig, wd, max_runs=budget.get("shrink_runs", 400), log=log, deadline=shrink_deadline)
